@@ -216,10 +216,11 @@ func (x *exec) judge() *verdict {
 			}
 			v.bad("unknown-payload-delivered", "%s.Read returned %q which the peer never wrote", s, it.data)
 		}
-		for p, o := range written[s.peer()] {
-			if !o.op.OK() {
+		for _, o := range x.ops {
+			if o.kind.isU() || o.kind.side() != s.peer() || !o.op.OK() {
 				continue
 			}
+			p := string(o.payload)
 			var carrier []rec
 			for _, r := range recs {
 				if r.Src == s.peer() && r.Type == ctAppData && bytes.Equal(r.Body, o.payload) {
@@ -236,21 +237,29 @@ func (x *exec) judge() *verdict {
 					v.bad("write-ok-without-record", "op %d Write(%q) returned nil but no record carrying it was emitted", o.idx, p)
 					continue
 				}
-				arrived, retained := false, false
+				// Not delivering is legitimate only if the datagram never arrived, or if at every arrival the
+				// receiver had already retired the record's generation (it had it installed earlier, not any more).
+				arrived, excused := false, true
 				for _, r := range carrier {
 					for _, dl := range x.deliveries {
-						if dl.id == r.DgID && dl.to == s {
-							arrived = true
+						if dl.id != r.DgID || dl.to != s {
+							continue
+						}
+						arrived = true
+						if now, ever := x.retainedAt(s, dl.step, r.Gen); now || !ever {
+							excused = false
 						}
 					}
-					if views[s].retained[r.Epoch] {
-						retained = true
-					}
 				}
-				if arrived && retained {
-					v.bad("payload-lost", "payload %q (op %d, %v) arrived at %s, which still retains read epoch %d, but Read never returned it", p, o.idx, carrier[0], s, carrier[0].Epoch)
-				} else {
+				switch {
+				case !arrived:
 					lost++
+				case excused:
+					lost++
+					v.counters["payloads_late_for_retired_generation"]++
+				default:
+					authEnd, _ := x.authorisedGen(s, recs)
+					v.bad("payload-lost", "payload %q (op %d, %v) arrived at %s (KeyUpdates received by then or later: %d, read epochs installed at the end: %v) while its generation was not retired, but Read never returned it", p, o.idx, carrier[0], s, authEnd, epochList(views[s].retained))
 				}
 			}
 		}
@@ -280,13 +289,26 @@ func (x *exec) judge() *verdict {
 				v.bad("unauthorised-epoch-record-delivered", "record under generation %d was delivered to %s.Read although %s never authorised that generation (authorised: %d)", f.gen, f.to, f.to, len(authSteps)-1)
 			case hits[0].step < authSteps[f.gen]:
 				v.bad("unauthorised-epoch-record-delivered", "record under generation %d was delivered to %s.Read at step %d, before the KeyUpdate authorising it arrived (step %d)", f.gen, f.to, hits[0].step, authSteps[f.gen])
-			case !views[f.to].retained[uint16(firstAppEp+f.gen)]:
-				v.bad("retired-epoch-record-delivered", "record under generation %d was delivered to %s.Read although %s no longer retains epoch %d", f.gen, f.to, f.to, firstAppEp+f.gen)
+			case !retainedNow(x, f.to, hits[0].step, f.gen):
+				v.bad("retired-epoch-record-delivered", "record under generation %d was delivered to %s.Read at step %d although %s did not retain epoch %d then", f.gen, f.to, hits[0].step, f.to, firstAppEp+f.gen)
 			case f.gen > f.authAtInj:
 				v.counters[label+"buffered_then_delivered_after_authorisation"]++
 			default:
 				v.counters[label+"delivered_while_retained"]++
 			}
+		}
+	}
+
+	// the mask positions are enumerated up to a static bound on the fault-free emissions: confirm it
+	if len(x.sc.Mask) == 0 && x.sc.Inj == nil {
+		var em [2]int
+		for _, d := range x.w.Emitted() {
+			if d.ID >= x.baseLog {
+				em[sideOf(d.Src)]++
+			}
+		}
+		if nc, ns := staticCounts(x.sc.Ops); em[cli] > nc || em[srv] > ns {
+			v.counters["static_emission_bound_exceeded"]++
 		}
 	}
 
@@ -313,7 +335,7 @@ func (x *exec) judge() *verdict {
 		}
 		v.class += " " + strings.Join(fs, ",")
 	}
-	v.nontrivial = x.n.Faulted == len(x.sc.Mask) && maxGen[cli]+maxGen[srv] > 0
+	v.nontrivial = x.n.Faulted == len(x.sc.Mask) && v.counters["keyupdates_acked_c"]+v.counters["keyupdates_acked_s"] > 0
 	return v
 }
 
@@ -396,4 +418,18 @@ func clip(s string, n int) string {
 		return s[:n] + "…"
 	}
 	return s
+}
+
+func epochList(m map[uint16]bool) []int {
+	var out []int
+	for e := range m {
+		out = append(out, int(e))
+	}
+	sort.Ints(out)
+	return out
+}
+
+func retainedNow(x *exec, sd side, step, g int) bool {
+	now, _ := x.retainedAt(sd, step, g)
+	return now
 }
